@@ -287,9 +287,10 @@ void check_solve(const Dense &Aeff, bool etrans, const std::vector<int> &perm_r,
     }
 }
 
-std::vector<ld> true_berr(const Dense &A, const std::vector<cld> &B, const std::vector<cld> &X, int nrhs, bool use_abs1) {
+std::vector<ld> true_berr(const Dense &A, const std::vector<cld> &B, const std::vector<cld> &X, int nrhs, bool use_abs1, std::vector<ld> *min_pos_den) {
     // use_abs1: measure complex magnitudes by |re|+|im| (the LAPACK CABS1 convention the library's berr is defined with)
     int n = A.n; std::vector<ld> w(nrhs, 0);
+    if (min_pos_den) min_pos_den->assign(nrhs, INFINITY);
     auto mag = [&](cld v) { return use_abs1 ? abs1_(v) : absl_(v); };
     for (int c = 0; c < nrhs; ++c) {
         const cld *x = X.data() + (size_t)c * n, *b = B.data() + (size_t)c * n;
@@ -300,6 +301,7 @@ std::vector<ld> true_berr(const Dense &A, const std::vector<cld> &B, const std::
                 r -= a * x[j]; den += mag(a) * mag(x[j]);
             }
             ld v = mag(r);
+            if (den > 0 && min_pos_den) (*min_pos_den)[c] = std::min((*min_pos_den)[c], den);
             if (den > 0) w[c] = std::max(w[c], v / den);
             else if (v > 0) w[c] = INFINITY;
         }
